@@ -55,6 +55,9 @@ theorem retry_gauge_step (s : Retry.St) (a : Retry.Act) (s' : Retry.St) (hi : s.
       · cases h; simp only; rw [length_erase_int _ _ (Retry.jobOfDel_mem hjd).1]; omega
       · cases h
     · cases h
+  | cbMark g d i =>
+    simp only [Retry.step] at h
+    (repeat' split at h) <;> first | (cases h; exact hi) | cases h
   | cbPolicy d r =>
     simp only [Retry.step] at h
     split at h
